@@ -256,6 +256,7 @@ type vProbe struct {
 	panicTeardown bool      // the teardown of every subscription of this probe panics (after doing its work)
 	pend          [][]vStep // asyncPlay: per subscription, the steps not yet emitted
 	asyncOwn      bool      // asyncPlay: each attempt plays its script from its own thread instead of being driven
+	nilError      bool      // an error step is emitted as Error(nil)
 	asyncPlay     bool      // scripts are played from a thread of their own after Subscribe has returned
 	syncTerm      int       // if set: the next subscription emits this terminal synchronously inside Subscribe (once)
 	itemCtx       bool      // attach a per-item marker to the context of each Next
@@ -380,7 +381,11 @@ func (p *vProbe) emitAt(i int, st vStep) {
 		}
 		p.ended[i] = true
 	}
-	vEmit(p.dests[i], ctx, st)
+	if p.nilError && st.kind == vkError {
+		p.dests[i].ErrorWithContext(ctx, nil)
+	} else {
+		vEmit(p.dests[i], ctx, st)
+	}
 	if st.kind != vkNext && i < len(p.objs) && p.objs[i] != nil && !p.closing[i] {
 		// like every real source, the probe's subscription is closed once it has terminated
 		p.closing[i] = true
